@@ -83,7 +83,7 @@ FAMILIES = {
     "C34": ["evloop"],
     "C14": ["early", "op", "srcfac", "own", "class", "subscribe", "tramp"],
     "C02": ["own", "class", "subscribe", "compose"],
-    "C03": ["own", "class", "subscribe", "compose"],
+    "C03": ["own", "class", "subscribe", "compose", "srcfac"],
     "C43": ["lockset"],
     "C42": ["catchsched"],
     "C09": ["guard"],
@@ -135,6 +135,14 @@ CALLEE_USERS = ("C05", "C06", "C09", "C10", "C11", "C12", "C13", "C15", "C16", "
 #: properties decided by proofs about one subscription of one operator application: the frame condition that carries them to
 #: every subscription / application is checked for their own files (frame.run_local)
 STATE_ALLOCATION = ("C05", "C06", "C07", "C09", "C10", "C11", "C12", "C13", "C15", "C16", "C17", "C18", "C19", "C37", "C40")
+
+
+#: operator contracts a property's lemma is stated over (proved under another property): re-proved inside this check as well
+USES_OPS = {
+    # C07: the closed forms of the stage operators slice_ is composed of are lemmas over the spec machines of C05 - which the
+    # real handlers must refine
+    "C07": [("contracts.c05", n) for n in ("take", "skip", "take_last", "skip_last", "filter_indexed")],
+}
 
 
 def _property_files(prop):
@@ -194,6 +202,16 @@ def callee_units(prop, have):
     return out
 
 
+def callee_op_units(prop, used_uids, have_ids, tier):
+    """K1 units of the operator contracts that the units of `prop` used as callees (by contract)"""
+    out = []
+    for m in OP_MODULES:
+        for c in getattr(importlib.import_module(m), "CONTRACTS", []):
+            if c.uid in used_uids and c.uid not in have_ids and not any(o["id"] == c.uid for o in out):
+                out.append({"runner": "k1", "module": m, "name": c.name, "prop": prop, "id": c.uid, "tier": "quick" if tier == "quick" else "quick"})
+    return out
+
+
 def units_for(prop, tier):
     us = []
     fams = FAMILIES.get(prop, [])
@@ -213,6 +231,12 @@ def units_for(prop, tier):
         us.append({"runner": "timedextra", "prop": prop, "id": f"timed-operators-not-under-contract/{prop}"})
     if "grouping" in fams:
         us.append({"runner": "grouping", "prop": prop, "id": f"grouping-wiring/{prop}"})
+    if prop in ("C30", "C31", "C34", "C35"):
+        # callee contracts of the trampoline / event-loop schedulers: the queue they keep their items in
+        us.append({"runner": "vts", "mode": "queue", "prop": prop, "id": "reactivex/internal/priorityqueue.py::PriorityQueue+ScheduledItem"})
+    if prop in ("C28", "C29", "C30", "C31", "C33", "C34", "C35", "C42"):
+        # ... and what invoking / cancelling a scheduled item means (Scheduler.invoke_action, ScheduledItem)
+        us.append({"runner": "schedbase", "prop": prop, "id": "reactivex/scheduler/scheduler.py::Scheduler.invoke_action+ScheduledItem"})
     if "refcount" in fams:
         us.append({"runner": "refcount", "prop": prop, "id": "reactivex/disposable/refcountdisposable.py::RefCountDisposable[functional]"})
     if "flatwire" in fams:
@@ -267,6 +291,10 @@ def units_for(prop, tier):
         us.append({"runner": "frame", "prop": prop, "id": f"frame-conditions/{prop}"})
     if "subscribe" in fams:
         us.append({"runner": "subscribe_unit", "prop": prop, "id": "reactivex/observable/observable.py::Observable.subscribe"})
+    for (m, name) in USES_OPS.get(prop, ()):
+        for c in getattr(importlib.import_module(m), "CONTRACTS", []):
+            if c.name == name and not any(u["id"] == c.uid for u in us):
+                us.append({"runner": "k1", "module": m, "name": c.name, "prop": prop, "id": c.uid})
     us += callee_units(prop, {u["id"] for u in us})
     if prop in STATE_ALLOCATION:
         us.append({"runner": "frame", "mode": "local", "prop": prop, "files": _property_files(prop), "id": f"state-allocation/{prop}"})
